@@ -18,15 +18,19 @@ open Casket.Exec
 def StablePerm (ls ls' : List Line) : Prop :=
   ∀ d : Dir, ls.filter (fun l => l.dir == d) = ls'.filter (fun l => l.dir == d)
 
+/-- block by block: same keys, lines reordered stably -/
+inductive BlocksPerm : List Block → List Block → Prop where
+  | nil : BlocksPerm [] []
+  | cons {b b' : Block} {bs bs' : List Block} (hk : b.keys = b'.keys) (hp : StablePerm b.lines b'.lines)
+      (rest : BlocksPerm bs bs') : BlocksPerm (b :: bs) (b' :: bs')
+
 /-- executable form (it is enough to look at the directives that occur) -/
 def stablePerm (ls ls' : List Line) : Bool :=
   (ls ++ ls').all fun l0 => ls.filter (fun l => l.dir == l0.dir) == ls'.filter (fun l => l.dir == l0.dir)
 
-/-- strictly increasing positions in the directive list (and every name is in the list) -/
-def canonical (D : List Dir) : List Dir → Bool
-  | [] => true
-  | [a] => D.contains a
-  | a :: b :: rest => D.contains a && decide (idx D a < idx D b) && canonical D (b :: rest)
+/-- in the order of the directive list: a subsequence of it (with a duplicate-free list this
+means strictly increasing positions) -/
+def canonical (D : List Dir) (chain : List Dir) : Bool := chain.isSublist D
 
 /-- token groups as observed: directive → token texts, for the directives that occur -/
 abbrev Groups := List (Dir × List String)
